@@ -1,7 +1,8 @@
 (* C01: model of MovePreallocated vs the implementation, and vs the rules specification. *)
 open Common
 let split_input s = match S.split_on_char ';' s with [p; m] -> (parse_pos p, parse_move m) | _ -> failwith "c01 input"
-let run variant =
+let run args =
+  let variant = (match args with v :: _ -> v | [] -> "fixed") in
   let mv = if variant = "pinned" then Inst.mv_pinned else Inst.mv_fixed in
   run_cases (fun fs ->
     let (p, m) = split_input (L.hd fs) in
